@@ -32,6 +32,7 @@ fn describe(ctx: &Ctx) {
     ctx.rule("(kind in sheet/workbook/revisions, password, wrong-password mode, legacy attribute present before the call, target sheet, writer flavour); every case is judged on the model, on the saved XML and after reload. Non-trivial = non-ASCII or >15-character password, or a legacy hash attribute present before the call; distinct by serialized case");
     ctx.assume("reference = ecma_protection_hash in harness/src/model/offcrypto.rs (H0=H(salt||UTF-16LE(pw)), Hi=H(Hi-1||LE32(i))), cross-checked against Python hashlib in every run and against three Excel-written hashes of the corpus (sheet_lock.xlsx, book_lock.xlsx, password \"password\")");
     ctx.assume("clear-text search is applied to passwords of >= 8 UTF-16 units or with a non-ASCII character that do not already occur in the same workbook saved without the password (shorter ones occur in any XML by chance); the legacy-attribute and raw-getter checks apply to every case");
+    ctx.assume("passwords are at most 255 characters (up to 510 UTF-16 code units with non-BMP characters; class over255units-password), no NUL / lone surrogates; wrong passwords include strings that agree with the password on its first 255 UTF-16 units / 255 UTF-16 bytes / 255 UTF-8 bytes");
     ctx.assume("salt freshness is judged by inequality of the salts of two calls (false alarm probability 2^-128)");
 }
 
